@@ -124,6 +124,12 @@ def dec_index(s):
     raise ValueError(s)
 
 
+def hh_beta(ir):
+    """Householder coefficient: a float, or [re, im] for a complex one (complex vectors only)."""
+    b = ir["beta"]
+    return complex(*b) if isinstance(b, (list, tuple)) else b
+
+
 # ----------------------------------------------------------------------------- builder (cola)
 def build(ir):
     """IR -> cola LinearOperator, through public constructors and combinators only."""
@@ -158,7 +164,7 @@ def build(ir):
         dt = ir.get("dt")
         return ops.Permutation(np.array(ir["p"], dtype=np.int64), dtype=None if dt is None else DT[dt])
     if k == "hh":
-        return ops.Householder(dec(ir["v"]), beta=ir["beta"])
+        return ops.Householder(dec(ir["v"]), beta=hh_beta(ir))
     if k == "kernel":
         return ops.Kernel(dec(ir["x1"]), dec(ir["x2"]), kernel_fn(ir["fn"]), ir["bs1"], ir["bs2"])
     if k == "fft":
@@ -217,6 +223,11 @@ def build(ir):
     if k == "gram":  # the same object on both sides
         A = ch[0]
         return {"HA": lambda: A.H @ A, "AH": lambda: A @ A.H, "TA": lambda: A.T @ A, "AT": lambda: A @ A.T}[ir["form"]]()
+    if k == "cong":  # congruence B @ M1 @ ... @ Mk @ B^H (or B^T): the same object B on both ends
+        out = ch[0]
+        for M in ch[1:]:
+            out = out @ M
+        return out @ (ch[0].H if ir.get("form", "H") == "H" else ch[0].T)
     if k == "slice":
         return ch[0][dec_index(ir["s0"]), dec_index(ir["s1"])]
     if k == "cat":
@@ -328,8 +339,9 @@ def denote(ir):
         return Ref(M)
     if k == "hh":
         v = dec(ir["v"])
-        M = np.eye(v.shape[0], dtype=v.dtype) - np.asarray(ir["beta"], dtype=v.dtype) * (v @ v.conj().T)
-        return Ref(M.astype(v.dtype), Mabs=np.eye(v.shape[0]) + abs(ir["beta"]) * np.abs(v) @ np.abs(v).T)
+        beta = hh_beta(ir)
+        M = np.eye(v.shape[0], dtype=v.dtype) - np.asarray(beta, dtype=v.dtype) * (v @ v.conj().T)
+        return Ref(M.astype(v.dtype), Mabs=np.eye(v.shape[0]) + abs(beta) * np.abs(v) @ np.abs(v).T)
     if k == "kernel":
         x1, x2 = dec(ir["x1"]), dec(ir["x2"])
         return Ref(kernel_fn(ir["fn"])(x1, x2).astype(x1.dtype))
@@ -385,6 +397,12 @@ def denote(ir):
         f = ir["form"]
         out = {"HA": M.conj().T @ M, "AH": M @ M.conj().T, "TA": M.T @ M, "AT": M @ M.T}[f]
         return Ref(out, Ma.T @ Ma if f in ("HA", "TA") else Ma @ Ma.T, ch[0].exact)
+    if k == "cong":
+        M, Ma = ch[0].M, ch[0].Mabs
+        for c in ch[1:]:
+            M, Ma = M @ c.M, Ma @ c.Mabs
+        last = ch[0].M.conj().T if ir.get("form", "H") == "H" else ch[0].M.T
+        return Ref(M @ last, Ma @ ch[0].Mabs.T, all(c.exact for c in ch))
     if k == "slice":
         s0, s1 = dec_index(ir["s0"]), dec_index(ir["s1"])
         return Ref(ch[0].M[s0][:, s1], ch[0].Mabs[s0][:, s1], ch[0].exact)
